@@ -129,8 +129,8 @@ FILES = {
     "m4.f90": "module m4\n  use m1, only: pub_a, base_t\n  implicit none\n  integer :: value_long\n  integer :: value\n  type holder\n    type(base_t) :: inner\n"
               "  end type holder\ncontains\n  subroutine s()\n    type(base_t) :: bb\n    type(holder) :: hh\n    value = pub_a\n    call pub_sub(1)\n"
               "    hh%inner%comp_base = 1\n  end subroutine s\nend module m4\n",
-    "p.f90": "program pp\n  use m3\n  use m1\n  implicit none\n  integer :: pub_b_local\n  pub_a = 1\n  call pub_sub(2)\n  call priv_sub()\n  priv_c = 3\n"
-             "  call hidden_ext(4)\n  shadowed = 5\n  call outer()\nend program pp\n",
+    "p.f90": "program pp\n  use m3\n  use m1\n  implicit none\n  integer :: pub_b_local\n  type(ext_t) :: ee\n  pub_a = 1\n  call pub_sub(2)\n  call priv_sub()\n  priv_c = 3\n"
+             "  call hidden_ext(4)\n  shadowed = 5\n  call outer()\n  ee%base_t%comp_base = 6\nend program pp\n",
 }
 # (file, line, col) -> expected (file, line) of the declaration, or None
 EXPECT = [
@@ -145,13 +145,14 @@ EXPECT = [
     ("m4.f90", 13, 9, None),              # pub_sub is not in the ONLY list
     ("m4.f90", 14, 7, ("m4.f90", 6)),     # hh%inner
     ("m4.f90", 14, 14, ("m1.f90", 7)),    # hh%inner%comp_base: two links
-    ("p.f90", 5, 2, ("m1.f90", 3)),       # pub_a
-    ("p.f90", 6, 7, ("m1.f90", 19)),      # pub_sub
-    ("p.f90", 7, 7, None),                # priv_sub: PRIVATE
-    ("p.f90", 8, 2, None),                # priv_c: PRIVATE
-    ("p.f90", 9, 7, None),                # hidden_ext: unnamed interface in default-private module
-    ("p.f90", 10, 2, ("m2.f90", 3)),      # shadowed re-exported through m3
-    ("p.f90", 11, 7, ("m2.f90", 5)),      # outer through m3 -> m2
+    ("p.f90", 13, 14, ("m1.f90", 7)),     # ee%base_t%comp_base: the parent type as a component
+    ("p.f90", 6, 2, ("m1.f90", 3)),       # pub_a
+    ("p.f90", 7, 7, ("m1.f90", 19)),      # pub_sub
+    ("p.f90", 8, 7, None),                # priv_sub: PRIVATE
+    ("p.f90", 9, 2, None),                # priv_c: PRIVATE
+    ("p.f90", 10, 7, None),                # hidden_ext: unnamed interface in default-private module
+    ("p.f90", 11, 2, ("m2.f90", 3)),      # shadowed re-exported through m3
+    ("p.f90", 12, 7, ("m2.f90", 5)),      # outer through m3 -> m2
 ]
 
 
